@@ -39,6 +39,8 @@ func init() {
 	registerRule("R47", ruleR47)
 	registerRule("R48", ruleR48)
 	registerRule("R49", ruleR49)
+	registerRule("R50", ruleR50)
+	registerRule("R51", ruleR51)
 	registerRule("R39", ruleR39R40)
 	registerRule("R40", func(c *Ctx) { c.run("R39") })
 	registerRule("R37", func(c *Ctx) { c.run("R21") })
@@ -67,11 +69,11 @@ func init() {
 	registerProp(&propSpec{ID: "C06", Level: "other",
 		Rules: []string{"R03", "R04", "R05", "R14"},
 		Explain: "On every CFG path of every Insert/Delete copy (6 kinds) the size counter changes by one exactly when one leaf is linked/unlinked (R03/R04 path automaton over link, relink, overwrite, unlink and size events), " +
-			"nobody else writes the counter and Size() returns it unmodified (R14); key-exhausted paths are infeasible where keys are prefix-free (R05).",
+			"nobody else writes the counter and Size() returns it unmodified (R14); key-exhausted paths are infeasible where keys are prefix-free (R05). R51 the dispatchers nodeRef.addChild/deleteChild hand every call on to the node layout (no path returns before the kind switch): Insert and Delete count after the call returns.",
 		NotDecided: "That linking a leaf corresponds to storing a new key (that is C01's value-level part) – the rule decides the pairing of structural events with the counter, not map semantics."})
 	registerProp(&propSpec{ID: "C19", Level: "translation_validation",
 		Rules:      []string{"R34"},
-		Explain:    "Translation validation of the generated file: the checker extracts the instantiation table from the AST of cmd/go-art/main.go (constants only), executes cmd/go-art/tree.tmpl with it, formats the result with go/format and compares it byte for byte with trees.go, one comparison per instantiation plus the header; it also checks the go:generate directives and that trees.go is gofmt-stable.",
+		Explain:    "Translation validation of the generated file: the checker extracts the instantiation table from the AST of cmd/go-art/main.go (constants only), executes cmd/go-art/tree.tmpl with it, formats the result with go/format and compares it byte for byte with trees.go, one comparison per instantiation plus the header; it also checks the go:generate directives and that trees.go is gofmt-stable. The generator's output path: Execute writes to the opened file or to a bufio.Writer on it that is flushed after Execute and before the file is closed (explicit statements in order, deferred calls after them in reverse order), and the error of Execute ends the program.",
 		NotDecided: "Nothing value-level remains: the property is a textual equality. Trusted: text/template and go/format of the Go release the checker is built with (assumed to agree with the release used to regenerate).",
 		Technique:  "static translation validation: re-render the code-generation template from the generator's AST and diff against the checked-in file", DesignRef: "§4 C19 R34"})
 	registerProp(&propSpec{ID: "C02", Level: "other", DesignRef: "§4 C02",
@@ -112,7 +114,7 @@ func init() {
 		NotDecided: "The SWAR/SIMD bit arithmetic (2^40 / 2^140 inputs): that insertPosNode4/16 return the sorted position and searchNode4 the first matching lane."})
 	registerProp(&propSpec{ID: "C11", Level: "other", DesignRef: "§4 C11",
 		Rules:      []string{"R06", "R07", "R21", "R22", "R23", "R03", "R04", "R24", "R37", "R41", "R43", "R10"},
-		Explain:    "R06 a reference is only ever read through the layout its tag names (120 casts under tag facts, 48 reference literals pairing pointer type and tag, pool assertions); R07 every kind switch has one arm per inner kind and a panicking default; R21 every grow/shrink copies every header field (prefixLen, childrenLen, prefix) to the replacement before releasing the old node; R22 capacity guards/thresholds are coherent with the array lengths; R23 node fields are written only by the node layer and the Insert split paths; R03/R04 the number of linked leaves moves in step with size on every path; R24 nodes are released only after the slot is relinked. R22 also: prefixLen is as wide as the leaves' key-length fields; R37/R41/R43 slot allocation, vacate-on-delete and fan-out bookkeeping of the node layer; R10 the grow/shrink loops over a byte-indexed table cover all 256 entries. R47 the packed key word registers a child under exactly its byte (lane cleared before the OR).",
+		Explain:    "R06 a reference is only ever read through the layout its tag names (120 casts under tag facts, 48 reference literals pairing pointer type and tag, pool assertions); R07 every kind switch has one arm per inner kind and a panicking default; R21 every grow/shrink copies every header field (prefixLen, childrenLen, prefix) to the replacement before releasing the old node; R22 capacity guards/thresholds are coherent with the array lengths; R23 node fields are written only by the node layer and the Insert split paths; R03/R04 the number of linked leaves moves in step with size on every path; R24 nodes are released only after the slot is relinked. R22 also: prefixLen is as wide as the leaves' key-length fields; R37/R41/R43 slot allocation, vacate-on-delete and fan-out bookkeeping of the node layer; R10 the grow/shrink loops over a byte-indexed table cover all 256 entries. R47 the packed key word registers a child under exactly its byte (lane cleared before the OR). R50 deleteChild of the smallest size class relinks the slot to the remaining child on every path on which the fan-out has dropped to one (a branch point keeps two children; a one-child node that stays linked is never collapsed later). R51 dispatchers hand every call on.",
 		NotDecided: "That prefix lengths/bytes equal the common extension of the keys below a node after split and merge (byte arithmetic), and history independence of the shape."})
 	registerProp(&propSpec{ID: "C12", Level: "other", DesignRef: "§4 C12",
 		Rules:      []string{"R24", "R25", "R30", "R06", "R14", "R42"},
@@ -136,7 +138,7 @@ func init() {
 		NotDecided: "The Go memory model guarantees of sync.Pool (trusted); a user-supplied compound codec with shared mutable state (premise of the property)."})
 	registerProp(&propSpec{ID: "C17", Level: "other", DesignRef: "§4 C17",
 		Rules:      []string{"R17", "R29", "R04", "R24", "R03", "R30"},
-		Explain:    "Structural content of 'no per-operation leak': R29/R31 nothing a query allocates is stored into memory that outlives the call; R17 the sort key is copied out of the tree-lifetime collate.Buffer and the buffer is reset on every path, so it neither grows with the number of operations nor is aliased by stored leaves; R03 an overwrite of a present key stores only the value; R04 a successful Delete overwrites the slot that held the leaf (the leaf and its key bytes become unreachable); R24 emptied nodes go back to the pool cleared. R30 the pool is a sync.Pool (collectable), not a hand-written free list. R48 the byte strings a key codec's Transform returns are memory it allocated or the plain conversion of the key, never an unsafe view of the caller's string (the compound tree stores them as they are, so a view pins the allocation the key was cut from).",
+		Explain:    "Structural content of 'no per-operation leak': R29/R31 nothing a query allocates is stored into memory that outlives the call; R17 the sort key is copied out of the tree-lifetime collate.Buffer and the buffer is reset on every path, so it neither grows with the number of operations nor is aliased by stored leaves; R03 an overwrite of a present key stores only the value; R04 a successful Delete overwrites the slot that held the leaf (the leaf and its key bytes become unreachable); R24 emptied nodes go back to the pool cleared. R30 the pool is a sync.Pool (collectable), not a hand-written free list. R48 the byte strings a key codec's Transform returns are memory it allocated or the plain conversion of the key, never an unsafe view of the caller's string (the compound tree stores them as they are, so a view pins the allocation the key was cut from). R50 no one-child inner node is left behind by a removal (dead inner nodes would accumulate with the history); R41 the fan-out counter follows every removal, so the shrink thresholds fire.",
 		NotDecided: "Actual heap numbers; stale duplicates left in unoccupied child slots by copy-shifting are bounded by node capacity (noted, not flagged)."})
 
 	// Attribution by implication: a defect of the shared node layer (a lost or misplaced child, a
@@ -156,6 +158,13 @@ func init() {
 	// before the relink, the wrong node released) is filled in by its next taker: stored keys and
 	// values do not stay as inserted (C18)
 	impliedProps["R24"] = append(impliedProps["R24"], "C18")
+	// an operation that builds its probe key differently from the stored keys (the other result
+	// of Transform, a missing terminator) misses present keys and may hit another one: lookups,
+	// Range bounds, Prefix, and the no-op half of C15 (Delete of an absent key)
+	impliedProps["R08"] = append(impliedProps["R08"], "C01", "C03", "C04", "C15")
+	// a descent position that disagrees with the node lets Insert of a present key add a second
+	// leaf (C15, C06)
+	impliedProps["R46"] = append(impliedProps["R46"], "C15", "C06")
 	for _, r := range []string{"R09", "R10", "R35", "R39", "R12"} {
 		impliedProps[r] = append(impliedProps[r], "C02", "C03", "C04", "C05", "C08", "C09")
 	}
@@ -173,6 +182,10 @@ func init() {
 	impliedProps["R15"] = append(impliedProps["R15"], "C01", "C02")
 	impliedProps["R48"] = append(impliedProps["R48"], "C17")
 	impliedProps["R49"] = append(impliedProps["R49"], "C12", "C14", "C16")
+	impliedProps["R50"] = append(impliedProps["R50"], "C11", "C17", "C05")
+	impliedProps["R51"] = append(impliedProps["R51"], "C06", "C01", "C11", "C15")
+	// a fan-out counter that no longer follows the removals keeps the shrink thresholds from firing
+	impliedProps["R41"] = append(impliedProps["R41"], "C17")
 	impliedProps["R29"] = append(impliedProps["R29"], "C08")
 	for r, ps := range impliedProps {
 		for _, p := range ps {
